@@ -94,10 +94,15 @@ var vFrames int
 
 //verif:replace (*connectrpc.com/conformance/internal/tracer.http2FrameTracer).emitFrame vModelEmitFrame
 func vModelEmitFrame(h *http2FrameTracer) bool {
+	if vFrames < len(vEmitLens) {
+		vEmitLens[vFrames] = h.frame.Len()
+	}
 	vFrames++
 	h.frame.Reset()
 	return true
 }
+
+var vEmitLens [4]int // bytes handed to the framer by each emitFrame call
 
 //verif:replace golang.org/x/net/http2.ReadFrameHeader vModelReadFrameHeader
 func vModelReadFrameHeader(r io.Reader) (http2.FrameHeader, error) {
